@@ -256,7 +256,7 @@ def corruptions(root, doc, rng, limit):
 def run(ctx):
     import random
     styles = [("prefix", "xtce"), ("default",), ("none",)]
-    for i in range(ctx.size(64, 3000)):
+    for i in range(ctx.size(64, 1500)):
         if not ctx.mine(i):
             continue
         rng = random.Random(f"C17/{ctx.seed}/{i}")
